@@ -708,7 +708,7 @@ func showInJSON(env *env, out io.Writer, value any) error {
 		value = v.Error()
 	}
 
-	v := reflect.ValueOf(value)
+	v := valueOf(env, value)
 
 	var s string
 
